@@ -11,6 +11,7 @@ from mc import recs
 from mc.alphabets import alphabet
 from mc.faults import drain
 from mc.recs import rs
+from mc.obs import obs_list
 from mc.report import Run, jhash
 from mc.space import explore
 
@@ -275,7 +276,61 @@ def run_overlap(case):
     return {"ev": na + nb, "h": h, "nt": True, "out": "overlap:%s" % ("ok" if not viol else "bad"), "viol": viol, "count": {"observer_reads": 1}}
 
 
+def run_reread(case):
+    """ONE reader object that is iterated again after the writer (still open, flushed) wrote more - also a later version of a type that
+    adds columns: every pass gives what a fresh reader gives at that moment."""
+    from flow.record.adapter.sqlite import SqliteReader, SqliteWriter
+
+    h = jhash(case)
+    d = os.environ["VERIF_SCRATCH"]
+    _n[0] += 1
+    path = os.path.join(d, "c18r-%d-%d.sqlite" % (os.getpid(), _n[0]))
+    viol = []
+    w = SqliteWriter(path, batch_size=case["batch"])
+    rd = None
+    passes = 0
+    try:
+        for step, ev in enumerate(case["hist"]):
+            if ev == "read":
+                w.flush()
+                if rd is None:
+                    rd = SqliteReader(path)
+                passes += 1
+                try:
+                    got = obs_list(list(rd))
+                    fresh_rd = SqliteReader(path)
+                    want = obs_list(list(fresh_rd))
+                    fresh_rd.con.close()
+                    if got != want:
+                        dif = recs.list_diff(want, got)
+                        viol.append(("C18:reader:pass-%d-differs-from-a-fresh-reader:%s" % (min(passes, 3), dif[3] if dif else "?"), case, {"step": step, "fresh": len(want), "same_reader": len(got)}))
+                except Exception as e:  # noqa: BLE001
+                    viol.append(("C18:reader:re-reading-raises-%s" % type(e).__name__, case, {"step": step, "error": repr(e)[:200]}))
+            else:
+                w.write(recs.build_record(KIND[ev](step)))
+        w.close()
+    except Exception as e:  # noqa: BLE001
+        viol.append(("C18:reread:writer-raises-%s" % type(e).__name__, case, {"error": repr(e)[:200]}))
+    finally:
+        for c in (rd, w):
+            try:
+                if c is not None and c.con:
+                    c.con.close()
+            except Exception:  # noqa: BLE001
+                pass
+        for suffix in ("", "-journal"):
+            try:
+                os.unlink(path + suffix)
+            except OSError:
+                pass
+    seen = set()
+    v2 = [v for v in viol if not (v[0] in seen or seen.add(v[0]))]
+    return {"ev": len(case["hist"]), "h": h, "nt": True, "out": "reread:%s" % ("ok" if not v2 else "bad"), "viol": v2, "count": {"observer_reads": passes}}
+
+
 def _run_case(case):
+    if case["kind"] == "reread":
+        return run_reread(case)
     if case["kind"] == "overlap":
         return run_overlap(case)
     if case["kind"] == "hist":
@@ -506,6 +561,11 @@ def cases(tier, seed):
                 yield {"kind": "hist", "hist": list(hist)}
                 if k <= 3:
                     yield {"kind": "hist", "hist": list(hist) + ["close"]}
+    for k in range(3, 6):
+        for hist in itertools.product(["A", "A+", "B", "read"], repeat=k):
+            if hist.count("read") >= 2 and hist[0] != "read" and (k < 5 or (hist[-1] == "read" and "A+" in hist)):
+                for batch in (1, 1000):
+                    yield {"kind": "reread", "hist": list(hist), "batch": batch}
     for rows in ([5, 7], [7, 5], [1, 9], [12, 12]):
         for batch in (1, 2, 3, 5, 1000):
             for poke in ("none", "table_names", "iter"):
